@@ -87,6 +87,10 @@ func attrFlag(table, name string, a, b bool) []Desc {
 	}
 }
 
+func sqliteAutoInc(t *Table) bool {
+	return t.PK != nil && len(t.PK.Cols) == 1 && t.Column(t.PK.Cols[0]) != nil && t.Column(t.PK.Cols[0]).AutoInc
+}
+
 func engineOf(t *Table) string {
 	if t.Engine == "" {
 		return "innodb" // the server default
@@ -106,6 +110,11 @@ func refTable(d Dialect, am *Model, a, b *Table) []Desc {
 	// The table AUTO_INCREMENT only sets up the initial counter: only raising it is a change.
 	if b.AutoInc > 1 && b.AutoInc > a.AutoInc {
 		out = append(out, Desc{Kind: "ModifyAttr", Table: n, Object: "AutoIncrement"})
+	}
+	// SQLite AUTOINCREMENT is a property of the table's single-column INTEGER PRIMARY KEY; it cannot be
+	// altered in place, so gaining or losing it (both sides keyed) is a table attribute change.
+	if d == SQLite && a.PK != nil && b.PK != nil {
+		out = append(out, attrFlag(n, "AutoIncrement", sqliteAutoInc(a), sqliteAutoInc(b))...)
 	}
 	out = append(out, attrFlag(n, "WithoutRowID", a.WithoutRowID, b.WithoutRowID)...)
 	out = append(out, attrFlag(n, "Strict", a.Strict, b.Strict)...)
@@ -350,7 +359,7 @@ func Ambiguous(a, b *Model) string {
 			if d == SQLite && c.Type.Class == e.Type.Class && !c.Type.Equal(e.Type) {
 				return "sqlite type spelling changed within its class"
 			}
-			if c.AutoInc != e.AutoInc || c.OnUpdate != e.OnUpdate {
+			if (c.AutoInc != e.AutoInc && !(d == SQLite && t.PK != nil && u.PK != nil)) || c.OnUpdate != e.OnUpdate {
 				return "column auto-increment / on-update attribute changed (not a diffed attribute)"
 			}
 			// an explicit column charset/collation appearing or disappearing is only a difference
@@ -388,6 +397,9 @@ func Ambiguous(a, b *Model) string {
 			}
 		}
 		if why := ambiguousAutoIndexes(d, t, u); why != "" {
+			return why
+		}
+		if why := ambiguousDefaults(d, t, u); why != "" {
 			return why
 		}
 		for _, i := range t.Indexes {
